@@ -148,3 +148,35 @@ Print Assumptions C20_comparator_from_source.
 Theorem C20_rotation_number_spec : forall name, gen_log_rotation_number name = Some (log_rotation_number_model name).
 Proof. exact log_rotation_number_spec. Qed.
 Print Assumptions C20_rotation_number_spec.
+
+(* ---------- the reader of the model is the reader of the source ----------
+   Gen/DirReaderProg.v is REGENERATED on every run by translating readLines, readFilePathLines,
+   rotatingFile.read (with setOffset / incOffsetBy / getOffset) and loopWithError of dirreader.go into a
+   small deep-embedded language (Model/DirReaderIR.v; bufio.ReadString, Open / Stat / Seek and the
+   fsnotify / back-off plumbing are stated contracts of the interpreter).  For ALL inputs, in the
+   error-free file-system environment the model is about: [read_lines] is the generated readLines,
+   [on_event] is the generated read, [startup] is the generated start-up phase of loopWithError (incl.
+   the initialisation of offset AND lastSz from the initial read of the live file), and a whole run of
+   the model (start-up, then the events of each operation) is a run of the generated loop. *)
+From AM Require Import Model.DirReaderIR Gen.DirReaderProg Proofs.DirReaderIRTie.
+Theorem C20_dirreader_from_source :
+  (forall s, run_readlines gen_readLines s = RLDone (fst (read_lines s)) (snd (read_lines s)) ErrNil) /\
+  (forall st file e,
+     run_read gen_methods gen_readLines gen_read st file e =
+     RDDone (fst (on_event st file e)) (snd (on_event st file e)) ErrNil) /\
+  (forall plen d,
+     run_loop gen_methods gen_readLines gen_readFilePathLines gen_read gen_loopWithError plen (content d)
+       (sort_names (map fst d)) (init_choices (sort_names (map fst d))) =
+     LBlocked (fst (startup d)) (snd (startup d)) [] 1 []).
+Proof. exact dirreader_from_source. Qed.
+Print Assumptions C20_dirreader_from_source.
+
+Theorem C20_run_from_source : forall (plen : pval -> nat) (d : dir) (ops : list op),
+  let names := sort_names (map fst d) in
+  exists st out,
+    run_loop gen_methods gen_readLines gen_readFilePathLines gen_read gen_loopWithError plen (content d) names
+      (init_choices names ++ map CEvent (ops_events (content d Live) ops)) = LBlocked st out [] 1 [] /\
+    concat out = concat (snd (startup d)) ++ concat (run_tail (fst (startup d)) (content d Live) ops) /\
+    st = fst (end_tail (fst (startup d)) (content d Live) ops).
+Proof. exact run_from_source. Qed.
+Print Assumptions C20_run_from_source.
